@@ -28,11 +28,11 @@ RULE = ('cases are of three kinds. func: (frequency grid, amplitude vector, targ
         'driven through calc_smooth_fa_spectrum / generate_smooth_fa_spectrum / calc_smoothing_matrix_konno_1998 '
         '(positional, keyword and mixed call styles; b as int/float/numpy scalar/0-d array incl. the ends 5 and 100); grids: '
         'Fourier grids of records of 3..513 samples (around every power of two; 1- and 2-sample records and list/tuple/'
-        'scalar arguments are rejected by the library and counted), a few records of 70000 samples, synthetic uniform / log '
+        'scalar arguments are rejected by the library and counted), a few records of 70000 / 140000 samples (65536 / 131072 bins), synthetic uniform / log '
         'grids of 1..256 bins, spacing 1e-6..1e9 Hz (dt 1e-9..1e3), float64 / float32 / int64 / int32 / int16 / uint8 / uint16 '
         'grids, with and without the zero-frequency bin; amplitudes: complex Fourier spectra of the shared record classes '
         '(also a 1e6 offset on a 1e-3 signal) or synthetic (constant, spike, decaying, maximum at first/last bin, plateaus at '
-        'the ends, signed, complex128/64, float32, int64/32/16/8, uint8/16 spanning the dtype range), scaled by 1e-12..1e12; '
+        'the ends, signed, complex128/64, float32, int64/32/16/8, uint8/16 spanning the dtype range incl. the most negative value of the signed dtypes), scaled by 1e-12..1e12; '
         'targets: log-random inside the grid, exactly on the grid, below f1/3, above 3*fmax, None (= the grid), float32 / '
         'integer, the frequency array object itself; each array also as strided view, reversed view or read-only array. '
         'signal: (record in any container/dtype, dt, class, way the targets are set, b, ratios incl. 0 / 1e-12 / 0.999999) '
@@ -47,8 +47,8 @@ ASSUMPTIONS = ['frequencies and targets are finite, positive real ndarrays (a si
                'bandwidth b in [5, 100] (calls outside are counted, not judged)',
                'when frequencies AND targets are float32 numpy evaluates the window in single precision: those calls are '
                'judged by separate clauses "(f32 grid)" with rtol 2e-4 (observed 8e-6) instead of 1e-9',
-               'an integer amplitude vector containing the minimum of its signed dtype is outside a reasonable reading of '
-               '"amplitude spectrum" (abs() overflows in numpy): probed and counted, not judged',
+               'integer amplitude vectors of any width are in domain, including the most negative value of a signed dtype '
+               '(|A| = 2**(bits-1) must not wrap)',
                'bandwidth limits are judged for ascending smoothing frequencies, ratio in [0,1) (calc_bandwidth_*) / '
                'ratio > 1 (get_sig_freq_range) and a smoothed spectrum that is not identically zero; an all-zero record and '
                'ratio = 1 make them raise IndexError (empty premise, counted)',
@@ -227,8 +227,14 @@ def _reference(fnz, anz, tg, band):
     return np.array(O.smooth(_columns(fnz, tg, band), anz.tolist()), dtype=float)
 
 
+def _mags(anz):
+    """|A| as float64; integer amplitudes go to float BEFORE abs (the most negative int64 has no int64 magnitude)."""
+    anz = np.asarray(anz)
+    return np.abs(anz.astype(float)) if anz.dtype.kind in 'iu' else np.abs(anz).astype(float)
+
+
 def _scale(anz):
-    return float(np.max(np.abs(anz))) if anz.size else 0.0
+    return float(np.max(_mags(anz))) if np.asarray(anz).size else 0.0
 
 
 def _raw_func(freqs, spec, targets, band):
@@ -285,7 +291,7 @@ def check_smooth(ctx, at, freqs, spec, targets, band, result, clause='smooth==we
     ctx.check(finite, 'smooth.finite', lambda: _wit(at, raw, got=got, band=band),
               '%s returned non-finite values or a wrong shape %s (expected %s)' % (at, got.shape, ref.shape))
     if finite:
-        mags = np.abs(anz).astype(float)
+        mags = _mags(anz)
         lo, hi = float(mags.min()), float(mags.max())
         slack = slack_rel * hi
         if got.dtype.kind == 'c':
@@ -398,12 +404,23 @@ def _pre_gen_smooth(args, kwargs):
 
 
 def _post_gen_smooth(args, kwargs, result, pre):
-    ctx = CTX
-    at = 'Signal.gen_smooth_fa_spectrum'
-    self = args[0]
     band = args[2] if len(args) > 2 else kwargs.get('band', 40)
-    st = pre['st']
     given, gsnap = pre['given']
+    _judge_generation(args[0], pre['st'], given, gsnap, band, 'Signal.gen_smooth_fa_spectrum')
+
+
+def _pre_generate_method(args, kwargs):
+    return {'st': _sig_state(args[0])}
+
+
+def _post_generate_method(args, kwargs, result, pre):
+    """Signal.generate_smooth_fa_spectrum(band): the stored spectrum must be the one for the band that was ASKED for."""
+    band = args[1] if len(args) > 1 else kwargs.get('band', 40)
+    _judge_generation(args[0], pre['st'], None, None, band, 'Signal.generate_smooth_fa_spectrum')
+
+
+def _judge_generation(self, st, given, gsnap, band, at):
+    ctx = CTX
     got = self._smooth_fa_spectrum
     _SERIAL[0] += 1
     _GEN[self] = {'band': band, 'fa_obj': self._fa_spectrum, 'tg_obj': self._smooth_fa_freqs,
@@ -428,8 +445,8 @@ def _post_gen_smooth(args, kwargs, result, pre):
         now.shape == np.asarray(use).shape and bool(np.all(now == np.asarray(use)))
     ctx.check(ok, 'signal.gen_smooth==weighted-mean',
               lambda: _wit(at, raw, got=np.asarray(got), expected=ref, band=band, targets_now=now),
-              'gen_smooth_fa_spectrum(band=%r, targets %s): stored spectrum %s; cached flag %r; targets stored == targets used: %r'
-              % (band, 'given' if given is not None else 'kept', tol.describe(got, ref, scale=scale, rtol=rtol),
+              '%s(band=%r, targets %s): stored spectrum %s; cached flag %r; targets stored == targets used: %r'
+              % (at, band, 'given' if given is not None else 'kept', tol.describe(got, ref, scale=scale, rtol=rtol),
                  self._cached_smooth_fa, now.shape == np.asarray(use).shape and bool(np.all(now == np.asarray(use)))))
 
 
@@ -450,7 +467,7 @@ def _post_prop(self, result, st):
     if self._fa_spectrum is not rec['fa_obj'] or self._smooth_fa_freqs is not rec['tg_obj'] or (was_cached and not st['cached_fa']):
         ctx.observe('cached-read-after-state-change(C04 territory)')
         return
-    band = rec['band']
+    band = rec['band'] if was_cached else 40          # an uncached read generates with the documented default band
     ent = _entry_fa(st)
     if ent is None:
         ctx.observe('out-of-domain:%s' % at)
@@ -596,6 +613,7 @@ def install(ctx):
     attach.wrap(eqsig.im, 'calc_bandwidth_f_min', _post_bw_fmin, pre=_pre_fn)
     attach.wrap(eqsig.im, 'calc_bandwidth_f_max', _post_bw_fmax, pre=_pre_fn)
     attach.wrap_method(eqsig.single.Signal, 'gen_smooth_fa_spectrum', _post_gen_smooth, pre=_pre_gen_smooth)
+    attach.wrap_method(eqsig.single.Signal, 'generate_smooth_fa_spectrum', _post_generate_method, pre=_pre_generate_method)
     _wrap_property(eqsig.single.Signal, 'smooth_fa_spectrum', _pre_prop, _post_prop)
 
 
@@ -823,11 +841,11 @@ def gen_func_case(rng, long_n=None):
             spec = (rng.normal(size=points) * min(max(amp, 1e-12), 1e12)).astype(np.float32)
         elif src == 'int':
             dtn = INT_DTYPES[int(rng.integers(len(INT_DTYPES)))]
-            with_min = dtn.startswith('int') and rng.random() < 0.08
+            with_min = dtn.startswith('int') and rng.random() < 0.25      # the most negative value of the dtype: |A| must not wrap
             spec = int_spectrum(rng, points, np.dtype(dtn), with_min)
             src = 'int:' + dtn
             if with_min:
-                probe = 'int-min'
+                src += ':with-dtype-min'
         elif src == 'int-small':
             spec = rng.integers(-9, 10, size=points).astype(np.int64)
         else:
@@ -1119,27 +1137,13 @@ def run_func_case(eqsig, ctx, c):
         if not c['reject'].startswith('spec') and (isinstance(freqs, np.ndarray) or isinstance(targets, np.ndarray)):
             _probe_rejected(ctx, c['reject'] + ':matrix', eqsig.calc_smoothing_matrix_konno_1998, freqs, targets)
         return
-    if c.get('probe') == 'int-min':
-        with attach.paused():
-            try:
-                a, k = direct_args(spec)
-                r = np.asarray(eqsig.calc_smooth_fa_spectrum(*a, **k))
-                fnz, anz = O.drop_zero_bin(np.asarray(base_f, dtype=float), np.asarray(base_s).astype(np.int64))
-                tg = fnz if targets is None else np.asarray(targets, dtype=float)
-                b = 40 if band is None else float(band)
-                ok = 5 <= b <= 100 and tol.close(r, _reference(fnz, anz, tg, b), scale=_scale(anz), rtol=RTOL)
-                ctx.observe('probe:int-min-amplitude:%s' % ('matches the weighted mean of |A|' if ok else
-                                                            'differs (abs() overflows in the narrow signed dtype)'))
-            except Exception as e:      # noqa
-                ctx.observe('probe:int-min-amplitude:raised %s' % type(e).__name__)
-        return
     ok, held = direct(spec)
     if not ok:
         return
     base = np.array(held, copy=True)
     sarr = np.asarray(spec)
     fnz, anz = O.drop_zero_bin(np.asarray(freqs, dtype=float), sarr.astype(np.int64) if sarr.dtype.kind == 'i' else sarr)
-    mags = np.abs(anz).astype(float)
+    mags = _mags(anz)
     scale = float(mags.max()) if mags.size else 0.0
     rt = _prec_rtol(np.asarray(freqs).dtype, np.asarray(freqs if targets is None else targets).dtype, sarr.dtype)
     bkw = {} if band is None else {'band': band}
@@ -1572,6 +1576,7 @@ def run_case(eqsig, ctx, case):
 
 N_CASES = {'quick': (1440, 480, 320), 'thorough': (28800, 9600, 6400)}    # (func, signal, history) cases over all shards
 LONG_N = 70000                                                            # > 2**16 samples -> 65536 Fourier bins
+LONG_N_FUNC = 140000                                                      # -> 131072 Fourier bins (> 2**16 bins)
 
 
 def _sample_of(case, cls):
@@ -1620,7 +1625,7 @@ def run_shard(ctx):
         elif kind == 'history':
             case, cls = gen_history_case(rng)
         elif kind == 'long-func':
-            case, cls = gen_func_case(rng, long_n=LONG_N)
+            case, cls = gen_func_case(rng, long_n=LONG_N_FUNC)
         elif kind == 'long-signal':
             case, cls = gen_signal_case(rng, long_n=LONG_N)
         else:
@@ -1646,5 +1651,15 @@ def replay(w):
     return ['%s: %s' % (v['clause'], v['msg']) for v in ctx.violations if not v.get('finding')]
 
 
-MIN_EVALS['quick'] = {}
-MIN_EVALS['thorough'] = {}
+MIN_EVALS['quick'] = {
+    'smooth==weighted-mean': 4500, 'smooth.finite': 4700, 'smooth.within[min|A|,max|A|]': 4500,
+    'smooth==weighted-mean(f32 grid)': 50, 'smooth==weighted-mean(c64 amplitudes)': 130,
+    'matrix==window/sum': 1600, 'matrix.nonneg': 1600, 'matrix.colsum==1': 1600, 'matrix==window/sum(f32 grid)': 15,
+    'custom-matrix==sum|A_i|M_ij(i>=1)': 300, 'alias.generate==weighted-mean': 600,
+    'signal.gen_smooth==weighted-mean': 800, 'signal.smooth_fa_spectrum==weighted-mean': 1500,
+    'bandwidth.f_min<=f_max': 220, 'bandwidth.brackets-peak': 700, 'bandwidth==first/last above ratio*max': 700,
+    'sigrange.ordered+brackets-peak': 220, 'sigrange==first/last above max/ratio': 220,
+    'relation.alias==direct': 650, 'relation.matrix-form==direct-form': 750, 'relation.custom-matrix(konno)==object-form': 220,
+    'relation.constant-reproduced': 750, 'relation.scaling': 600, 'relation.scaling-pow2-exact': 110,
+    'purity.arguments-unchanged': 8000, 'purity.signal-state-unchanged': 3500, 'state.held-result-unchanged': 1900}
+MIN_EVALS['thorough'] = {k: 18 * v for k, v in MIN_EVALS['quick'].items()}
